@@ -27,6 +27,7 @@ from __future__ import annotations
 import gzip
 import itertools
 import math
+import struct
 
 import numpy as np
 import sympy
@@ -35,7 +36,9 @@ import tunits as tu
 import cirq
 import cirq_google as cg
 from cirq_google.api import v2
+from cirq_google.api.v2 import ndarrays as v2_nd
 from cirq_google.api.v2 import sweeps as v2_sweeps
+from cirq_google.serialization import arg_func_langs as _afl
 from cirq_google.experimental.ops import CouplerPulse
 from cirq_google.study.device_parameter import DeviceParameter, Metadata
 from cirq_google.study.finite_random_variable import FiniteRandomVariable
@@ -153,7 +156,7 @@ def val_close(v1, v2, rel=REL):
             return False
         if v1.dtype == np.bool_:
             return bool(np.array_equal(v1, v2))
-        return bool(np.allclose(v1, v2, rtol=rel, atol=0))
+        return bool(np.array_equal(v1, v2))   # arrays travel in their own dtype: no rounding is allowed
     if isinstance(v1, tu.Value) or isinstance(v2, tu.Value):
         if not (isinstance(v1, tu.Value) and isinstance(v2, tu.Value)):
             return False
@@ -469,6 +472,73 @@ def check_program(circ, unordered=False, stability=True):
 # (a) vocabulary of placed operations
 # =============================================================================================
 
+# ---- numpy array arguments: dtypes handled by api/v2/ndarrays.py and memory layouts
+ND_DTYPES = ["float64", "float32", "float16", "int64", "int32", "int16", "int8", "uint8", "complex128", "complex64",
+             "bool"]
+ND_LAYOUTS = ["C", "T", "F", "stride0", "stride_last", "rev_last", "rev0", "swap", "bcast"]
+
+
+def _nd_base(dtype, shape):
+    """C-ordered array with pairwise distinct, asymmetric contents (exactly representable in every dtype)."""
+    n = int(np.prod(shape)) if len(shape) else 1
+    k = np.arange(n)
+    dt = np.dtype(dtype)
+    if dt.kind == "b":
+        flat = ((k * k + k // 3 + (k % 5 == 0)) % 3 == 0)
+    elif dt.kind == "f":
+        flat = (k * 3 - 7) / 4.0
+    elif dt.kind == "c":
+        flat = (k * 3 - 7) / 4.0 + 1j * (k * k - 2 * k + 1) / 8.0
+    elif dt.kind == "u":
+        flat = (k * 5 + 1) % 251
+    else:
+        flat = k * 3 - 20
+    return np.asarray(flat).astype(dt).reshape(shape)
+
+
+def nd_array(dtype, shape, layout):
+    """An array of the given logical shape and contents _nd_base(dtype, shape), stored with the given layout.
+    Returns None when the layout does not exist for the shape (e.g. axis swap of a 1-d array)."""
+    base = _nd_base(dtype, shape)
+    nd = len(shape)
+    if layout == "C":
+        return base
+    if nd == 0:
+        return None
+    if layout == "F":
+        return np.asfortranarray(base)
+    if layout == "T":             # transposed view of a C array: Fortran-contiguous, not owning its data
+        return np.ascontiguousarray(base.T).T
+    if layout in ("stride0", "stride_last"):
+        ax = 0 if layout == "stride0" else nd - 1
+        big_shape = list(shape)
+        big_shape[ax] = 2 * shape[ax]
+        big = np.zeros(big_shape, dtype=base.dtype)
+        sl = [slice(None)] * nd
+        sl[ax] = slice(None, None, 2)
+        big[tuple(sl)] = base
+        sl2 = [slice(None)] * nd
+        sl2[ax] = slice(1, None, 2)
+        big[tuple(sl2)] = _nd_base(dtype, shape)[tuple([slice(None, None, -1)] * nd)]   # filler that must not leak
+        return big[tuple(sl)]
+    if layout in ("rev_last", "rev0"):
+        ax = 0 if layout == "rev0" else nd - 1
+        sl = [slice(None)] * nd
+        sl[ax] = slice(None, None, -1)
+        return np.ascontiguousarray(base[tuple(sl)])[tuple(sl)]     # negative stride view with the contents of base
+    if layout == "swap":
+        if nd < 2:
+            return None
+        return np.ascontiguousarray(np.swapaxes(base, 0, nd - 1)).swapaxes(0, nd - 1) if nd == 2 else \
+            np.ascontiguousarray(np.swapaxes(base, 0, 1)).swapaxes(0, 1)
+    if layout == "bcast":         # zero strides, read-only
+        if nd < 2:
+            return None
+        row = _nd_base(dtype, shape[1:])
+        return np.broadcast_to(row, shape)
+    raise core.HarnessError(f"unknown ndarray layout {layout}")
+
+
 class _UnknownTag:
     """A tag the serializer cannot know (documented ValueError 'Unrecognized Tag')."""
 
@@ -727,6 +797,18 @@ def vocab(seed):
     add("IG(list)", lambda q0, q1, k: IG("G", "mod", 1, x=[1, 2]).on(q0), find="internal_gate_unhashable_args")
     add("IG(ndarray)", lambda q0, q1, k: IG("G", "mod", 1, x=np.array([1.5, 2.5])).on(q0),
         find="internal_gate_unhashable_args")
+    # --- InternalGate with ndarray arguments: every dtype of api/v2/ndarrays.py x memory layout (asymmetric contents)
+    for dn in ND_DTYPES:
+        for ln in ("C", "T", "F", "stride0", "stride_last", "rev_last", "swap"):
+            arr = nd_array(dn, (3, 4), ln)
+            add(f"IG(nd {dn} {ln})", lambda q0, q1, k, arr=arr: IG("G", "mod", 1, table=arr).on(q0),
+                pairs=(dn, ln) in (("float64", "T"), ("int32", "stride_last"), ("bool", "F")))
+        arr3 = nd_array(dn, (2, 3, 4), "T")
+        add(f"IG(nd {dn} 3d T)", lambda q0, q1, k, arr3=arr3: IG("G", "mod", 2, table=arr3, n=1).on(q0, q1), pairs=False)
+        add(f"IG(nd {dn} empty)", lambda q0, q1, k, dn=dn: IG("G", "mod", 1, table=nd_array(dn, (0, 3), "C")).on(q0),
+            pairs=False)
+        add(f"IG(nd {dn} 1d strided)", lambda q0, q1, k, dn=dn: IG("G", "mod", 1, table=nd_array(dn, (5,), "stride0")).on(q0),
+            pairs=False)
     # --- analog gates
     add("ADQ", lambda q0, q1, k: cg.AnalogDetuneQubit(length=5 * tu.ns, w=5 * tu.ns, target_freq=5 * tu.GHz, prev_freq=None,
                                                   neighbor_coupler_g_dict={"c_q0_0_q0_1": 5 * tu.MHz},
@@ -791,8 +873,11 @@ def _all_moments(circ, out):
 
 def _equal_moments_with_different_tags(circ):
     ms = _all_moments(circ, [])
-    return any(ms[i] == ms[j] and list(ms[i].tags) != list(ms[j].tags)
-               for i in range(len(ms)) for j in range(i + 1, len(ms)))
+    try:
+        return any(ms[i] == ms[j] and list(ms[i].tags) != list(ms[j].tags)
+                   for i in range(len(ms)) for j in range(i + 1, len(ms)))
+    except Exception:      # operations with ndarray arguments cannot be compared with ==
+        return False
 
 
 def _run_circuits(named_circuits, unordered, find=None, stable_labels=None, skip_if=None):
@@ -1728,6 +1813,156 @@ def make_find_measurements_stage():
 
 
 # =============================================================================================
+# (c') numpy array codecs of api/v2/ndarrays.py
+# =============================================================================================
+
+# codec name -> (target dtype, input dtypes accepted by the docstring / _to_dtype: same kind, itemsize <= target)
+ND_CODECS = [
+    ("float64", "f8", ["f8", "f4", "f2", ">f8", ">f4"]),
+    ("float32", "f4", ["f4", "f2", ">f4"]),
+    ("float16", "f2", ["f2", ">f2"]),
+    ("int64", "i8", ["i8", "i4", "i2", "i1", ">i8", ">i2"]),
+    ("int32", "i4", ["i4", "i2", "i1", ">i4"]),
+    ("int16", "i2", ["i2", "i1", ">i2"]),
+    ("int8", "i1", ["i1"]),
+    ("uint8", "u1", ["u1"]),
+    ("complex128", "c16", ["c16", "c8", ">c16"]),
+    ("complex64", "c8", ["c8", ">c8"]),
+    ("bitarray", "?", ["?", "u1"]),
+]
+ND_SHAPES = [(), (0,), (0, 3), (5,), (1, 4), (4, 1), (3, 4), (2, 3, 4), (2, 1, 3)]
+# inputs the codecs document as rejected (ValueError): wider or different-kind dtypes
+ND_REJECT = [("float32", "f8"), ("float16", "f4"), ("int32", "i8"), ("int8", "i2"), ("float64", "i8"), ("int64", "f8"),
+             ("complex64", "c16"), ("uint8", "i1"), ("int8", "u1"), ("complex128", "f8")]
+_STRUCT = {"f8": "d", "f4": "f", "f2": "e", "i8": "q", "i4": "i", "i2": "h", "i1": "b", "u1": "B"}
+
+
+def _nd_wire_reference(a, target, big_endian):
+    """Row-major (C index order) element stream, independent of numpy's memory layout handling."""
+    if target == "?":
+        out = bytearray((a.size + 7) // 8)
+        for n, idx in enumerate(np.ndindex(a.shape)):
+            if a[idx]:
+                out[n // 8] |= 1 << (7 - n % 8)
+        return bytes(out)
+    bo = ">" if big_endian else "<"
+    parts = []
+    for idx in np.ndindex(a.shape):
+        v = a[idx]
+        if target in ("c16", "c8"):
+            f = "d" if target == "c16" else "f"
+            parts.append(struct.pack(bo + f + f, float(v.real), float(v.imag)))
+        elif target[0] == "f":
+            parts.append(struct.pack(bo + _STRUCT[target], float(v)))
+        else:
+            parts.append(struct.pack(bo + _STRUCT[target], int(v)))
+    return b"".join(parts)
+
+
+def make_ndarray_stage():
+    cases = []
+    for ci, (name, target, inputs) in enumerate(ND_CODECS):
+        for ii in range(len(inputs)):
+            for si in range(len(ND_SHAPES)):
+                for li in range(len(ND_LAYOUTS)):
+                    cases.append(("codec", ci, ii, si, li))
+    cases += [("reject", n, 0, 0, 0) for n in range(len(ND_REJECT))]
+    cases += [("bit_invalid", 0, 0, 0, 0)]
+    # the generic argument codec (dtype dispatch of arg_to_proto) over native dtypes x shapes x layouts
+    cases += [("arg", di, 0, si, li) for di in range(len(ND_DTYPES)) for si in range(len(ND_SHAPES))
+              for li in range(len(ND_LAYOUTS))]
+
+    def fns(name):
+        if name == "bitarray":
+            return v2_nd.to_bitarray, v2_nd.from_bitarray
+        return getattr(v2_nd, f"to_{name}_array"), getattr(v2_nd, f"from_{name}_array")
+
+    def run(case):
+        kind, ci, ii, si, li = case
+        if kind == "reject":
+            name, idt = ND_REJECT[ci]
+            a = _nd_base("int8" if idt[0] in "iu" else idt, (2, 3)).astype(idt)
+            try:
+                msg = fns(name)[0](a)
+            except ValueError:
+                return good(nontrivial=True)
+            return bad(f"to_{name}_array accepted a {a.dtype} array (documented ValueError): {msg}", kind="ndarray")
+        if kind == "bit_invalid":
+            try:
+                v2_nd.to_bitarray(np.array([0, 1, 2], dtype=np.uint8))
+            except ValueError:
+                return good(nontrivial=True)
+            return bad("to_bitarray accepted the value 2", kind="ndarray")
+        shape, layout = ND_SHAPES[si], ND_LAYOUTS[li]
+        if kind == "arg":
+            dn = ND_DTYPES[ci]
+            a = nd_array(dn, shape, layout)
+            if a is None:
+                return Res(skipped=True, nontrivial=False)
+            keep = a.copy()
+            msg = _hop(_afl.arg_to_proto(a))
+            try:
+                b = _afl.arg_from_proto(msg)
+            except ValueError:
+                if len(shape) == 0:     # documented: "Cannot convert unset/empty ... message" (0-d arrays have no shape)
+                    return Res(skipped=True, nontrivial=False)
+                raise
+            label = f"arg_from_proto(arg_to_proto({dn} array, shape {shape}, layout {layout}, strides {a.strides}))"
+            if not isinstance(b, np.ndarray) or b.shape != a.shape or b.dtype != a.dtype:
+                return bad(f"{label} = {b!r}, expected shape {a.shape} dtype {a.dtype}", kind="ndarray")
+            if not np.array_equal(b, keep) or not np.array_equal(a, keep):
+                return bad(f"{label}: sent {keep.tolist()} received {b.tolist()}", kind="ndarray")
+            return good(nontrivial=a.size >= 2)
+        name, target, inputs = ND_CODECS[ci]
+        idt = inputs[ii]
+        if name == "bitarray":
+            a = nd_array("bool", shape, layout)
+            if a is not None and idt == "u1":
+                a = a.view(np.uint8)            # 0/1 valued uint8 input with the same strides
+        else:
+            a = nd_array(np.dtype(idt), shape, layout)     # (big-endian inputs keep the layout, too)
+        if a is None:
+            return Res(skipped=True, nontrivial=False)
+        to, fr = fns(name)
+        want = _nd_base("bool" if name == "bitarray" else np.dtype(idt).newbyteorder("="), shape)
+        if layout == "bcast":
+            want = np.broadcast_to(_nd_base("bool" if name == "bitarray" else np.dtype(idt).newbyteorder("="), shape[1:]), shape)
+        if not np.array_equal(a, want):
+            raise core.HarnessError(f"layout generator broke the contents for {case}")
+        label = f"{name} codec, input dtype {a.dtype}, shape {shape}, layout {layout} (strides {a.strides})"
+        msg = _hop(to(a))
+        if not np.array_equal(a, want):
+            return bad(f"{label}: to_* modified its input", kind="ndarray")
+        if tuple(msg.shape) != tuple(shape):
+            return bad(f"{label}: message shape {tuple(msg.shape)}", kind="ndarray")
+        if name == "bitarray":
+            ref = _nd_wire_reference(want, "?", False)
+        else:
+            has_bo = "endianness" in msg.DESCRIPTOR.fields_by_name      # single-byte messages have no byte order
+            big = has_bo and msg.endianness == v2_nd.ndarrays_pb2.BIG_ENDIAN
+            if has_bo and (idt[0] == ">") != big:
+                return bad(f"{label}: endianness field {msg.endianness}", kind="ndarray")
+            ref = _nd_wire_reference(want, target, big)
+        if msg.flat_bytes != ref:
+            return bad(f"{label}: flat_bytes are not the row-major element stream of the array\n sent {want.tolist()}\n"
+                       f" wire {msg.flat_bytes!r}\n expected {ref!r}", kind="ndarray")
+        try:
+            b = fr(msg)
+        except ValueError:
+            if len(shape) == 0:
+                return Res(skipped=True, nontrivial=False)
+            raise
+        tdt = np.dtype(target)
+        if b.shape != tuple(shape) or b.dtype.newbyteorder("=") != tdt.newbyteorder("="):
+            return bad(f"{label}: decoded shape {b.shape} dtype {b.dtype}", kind="ndarray")
+        if not np.array_equal(b, want):
+            return bad(f"{label}: sent {want.tolist()} received {b.tolist()}", kind="ndarray")
+        return good(nontrivial=want.size >= 2)
+
+    return CaseStage("ndarrays", cases, run)
+
+
+# =============================================================================================
 # (d) devices
 # =============================================================================================
 
@@ -1948,7 +2183,7 @@ def stages(tier, seed):
     st = [make_pair_stage(seed), make_decor_stage(seed), make_multi_stage(seed)]
     if tier == "thorough":
         st.append(make_triple_stage(seed))
-    st += [make_run_context_stage(seed), make_sweep_v1_stage(seed), make_pack_stage(tier), make_results_stage(), make_find_measurements_stage(),
+    st += [make_run_context_stage(seed), make_sweep_v1_stage(seed), make_pack_stage(tier), make_ndarray_stage(), make_results_stage(), make_find_measurements_stage(),
            make_device_stage(tier), make_invalid_device_stage()]
     # stages that currently report suspected Cirq defects come last (each under its own `kind` signature)
     st += [make_sweep_stage(seed), make_moment_tag_stage(seed), make_letter_stage(seed)]
